@@ -131,7 +131,8 @@ func (w *c18World) stale(kind string) *x509.RevocationList {
 
 var c18Events = []string{"fetch", "server-publishes-newer", "cache:=fresh(old version)", "cache:=fresh-with-delta", "cache:=base-expired", "cache:=delta-expired", "cache:=both-expired", "cache:=base-without-nextupdate",
 	"cache:=empty", "next-get-fails", "next-set-fails", "next-base-download:transport-error", "next-base-download:404", "next-base-download:garbage", "next-delta-download-fails@0", "next-delta-download-fails@1", "next-delta-download-fails@all",
-	"cache:=empty(miss reported as a wrapped ErrCacheMiss)", "next-base-download:caller-cancels-when-it-has-been-answered"}
+	"cache:=empty(miss reported as a wrapped ErrCacheMiss)", "next-base-download:caller-cancels-when-it-has-been-answered",
+	"cache:=the-base-the-server-still-serves+expired-delta"}
 
 type c18Scenario struct {
 	cache   bool
@@ -164,7 +165,7 @@ func c18Scenarios(tier mc.Tier) []mc.Scenario {
 			if len(sh.locations) == 0 {
 				var e []string
 				for _, ev := range events {
-					if !strings.HasPrefix(ev, "next-delta-download-fails") && ev != "cache:=fresh-with-delta" && ev != "cache:=delta-expired" && ev != "cache:=both-expired" {
+					if !strings.HasPrefix(ev, "next-delta-download-fails") && ev != "cache:=fresh-with-delta" && ev != "cache:=delta-expired" && ev != "cache:=both-expired" && ev != "cache:=the-base-the-server-still-serves+expired-delta" {
 						e = append(e, ev)
 					}
 				}
@@ -317,6 +318,10 @@ func (s *c18Scenario) body(c *mc.Ctx) {
 			entry = newC18Bundle(&corecrl.Bundle{BaseCRL: w.stale("base-expired")}, false, "expired base")
 		case ev == "cache:=delta-expired":
 			entry = newC18Bundle(&corecrl.Bundle{BaseCRL: w.stale("old-base-fresh"), DeltaCRL: w.stale("delta-expired")}, false, "fresh base, expired delta")
+		case ev == "cache:=the-base-the-server-still-serves+expired-delta":
+			// only the delta has run out; the base in the cache is byte for byte the one the server serves now
+			_, cur := w.base(version, s.shape)
+			entry = newC18Bundle(&corecrl.Bundle{BaseCRL: cur, DeltaCRL: w.stale("delta-expired")}, false, "current base, expired delta")
 		case ev == "cache:=both-expired":
 			entry = newC18Bundle(&corecrl.Bundle{BaseCRL: w.stale("base-expired"), DeltaCRL: w.stale("delta-expired")}, false, "expired base and delta")
 		case ev == "cache:=base-without-nextupdate":
